@@ -187,7 +187,7 @@ Qed.
 (* ------------------------------------------------------------------------------------------------ *)
 (** * The generic invariant.
 
-    One theorem covers every linear invariant of this development.  Parameters: a linear observable [l] of the
+    One theorem covers every linear invariant of this development.  Inputs: a linear observable [l] of the
     balances, a weight [w chain token] selecting which in-flight records count, and two ghost read-outs [gd], [ge]
     (deposited / executed).  Given the effect of every balance program on [l] (record [blocks]) every operation
     preserves   l + in-flight(w) - gd + ge   and the well-formedness of the records. *)
@@ -737,16 +737,45 @@ Qed.
 End GEN.
 
 (* ------------------------------------------------------------------------------------------------ *)
-(** * Tactics for instantiating [blocks] *)
+(** * Effect of the primitive programs, for instantiating [blocks] *)
+
+Section PD.
+Variable co : cell -> Z.
+Lemma pd_send a b d x : pdelta co (send a b d x) = (co (CB b d) - co (CB a d)) * x.
+Proof. cbn. lia. Qed.
+Lemma pd_mint m d x : pdelta co (mint m d x) = (co (CB m d) + co (CS d)) * x.
+Proof. cbn. lia. Qed.
+Lemma pd_burn m d x : pdelta co (burn m d x) = - ((co (CB m d) + co (CS d)) * x).
+Proof. cbn. lia. Qed.
+Lemma pd_emint t a x : pdelta co (erc20_mint t a x) = (co (CT t) + co (CE t a)) * x.
+Proof. cbn. lia. Qed.
+Lemma pd_eburn t a x : pdelta co (erc20_burn t a x) = - ((co (CT t) + co (CE t a)) * x).
+Proof. cbn. lia. Qed.
+Lemma pd_etransfer t a b x : pdelta co (erc20_transfer t a b x) = (co (CE t b) - co (CE t a)) * x.
+Proof. cbn. lia. Qed.
+Lemma pd_nil : pdelta co [] = 0. Proof. reflexivity. Qed.
+Lemma pd_chk b p : pdelta co (Chk b :: p) = pdelta co p. Proof. reflexivity. Qed.
+Lemma pd_chke t p : pdelta co (ChkEnabled t :: p) = pdelta co p. Proof. reflexivity. Qed.
+End PD.
 
 Ltac blk_unfold :=
   unfold base_to_bridge_token, bridge_token_to_base, deposit_bridge_token, withdraw_bridge_token, conversion_coin,
          convert_coin, convert_erc20, msg_convert_denom, convert_denom_to_target, add_bridge_fee_prog, refund_mint, refund_unlock,
-         handler_origin_token, handler_erc20_token, ibc_to_base, base_to_ibc, converted_rep, old_target, denom_rep,
-         origin_or_converted, on_chain, is_fx.
-Ltac den_unfold := unfold alias_of, base_of, ibc_of, cacc, chain_ok, FX, A_ERC20, A_IBC, A_WFX, A_EVM, A_PRE in *.
+         handler_origin_token, handler_erc20_token, ibc_to_base, base_to_ibc, origin_or_converted.
+Ltac pd_rw := rewrite ?pd_chk, ?pd_chke, ?pdelta_app, ?pd_send, ?pd_mint, ?pd_burn, ?pd_emint, ?pd_eburn, ?pd_etransfer, ?pd_nil.
+(* split the conditionals that select the program's shape *)
+Ltac split_prog :=
+  repeat (rewrite ?pd_chk, ?pd_chke, ?pdelta_app;
+          match goal with |- context [pdelta _ (if ?b then _ else _)] => destruct b eqn:? end).
 Ltac split_leb := repeat match goal with |- context [Z.leb ?x ?y] => destruct (Z.leb_spec x y) end; cbn [andb orb negb].
 Ltac split_eqb := repeat match goal with |- context [Z.eqb ?x ?y] => destruct (Z.eqb_spec x y) end; cbn [andb orb negb].
-Ltac split_if := repeat match goal with |- context [if ?b then _ else _] => destruct b eqn:? end.
-Ltac pd_cbn := cbn [pdelta app send mint burn erc20_mint erc20_burn erc20_transfer]; rewrite ?pdelta_app;
-               cbn [pdelta app send mint burn erc20_mint erc20_burn erc20_transfer].
+
+Lemma sumZ_map0 {A} (f : A -> Z) (l : list A) : (forall x, f x = 0) -> sumZ (map f l) = 0.
+Proof. intros Hf. induction l as [|x l IH]; [reflexivity|]. unfold sumZ in *. cbn [map fold_right]. rewrite Hf, IH. reflexivity. Qed.
+Lemma infl_w0 r : infl (fun _ _ => 0) r = 0.
+Proof.
+  unfold infl, wtot, wbat, wtot, wcalls. rewrite !sumZ_map0; [reflexivity| | |].
+  - intros b. unfold wcall, wamt. apply sumZ_map0. intros; lia.
+  - intros p. unfold wp. lia.
+  - intros p. unfold wp. lia.
+Qed.
